@@ -48,6 +48,18 @@ fn header(ctx: &mut Ctx) -> coset::Header {
                 h = crate::model::MHeader::default();
                 h.csigs = cs;
             }
+            2 => {
+                // exactly one typed field, possibly with a default-looking value
+                h = crate::model::MHeader::default();
+                match ctx.rng.below(6) {
+                    0 => h.piv = vec![ctx.rng.next() as u8],
+                    1 => h.iv = vec![ctx.rng.next() as u8],
+                    2 => h.alg = Some(crate::model::MLabel::Int(0)),
+                    3 => h.ct = Some(crate::model::MLabel::Int(0)),
+                    4 => h.crit = vec![crate::model::MLabel::Int(0)],
+                    _ => h.kid = vec![0],
+                }
+            }
             _ => {}
         }
         if let Some(c) = capi::b_header(&h) {
@@ -87,6 +99,51 @@ fn other_than(ctx: &mut Ctx, b: &[u8]) -> Vec<u8> {
 /// the parsed header must do)
 fn perturb_protected(ctx: &mut Ctx, p: &mut coset::ProtectedHeader) -> &'static str {
     p.original_data = None;
+    // prefer changing a field that is populated (a header holding only that field must still count)
+    let h = &mut p.header;
+    let mut populated: Vec<u8> = Vec::new();
+    if !h.iv.is_empty() {
+        populated.push(0);
+    }
+    if !h.partial_iv.is_empty() {
+        populated.push(1);
+    }
+    if !h.crit.is_empty() {
+        populated.push(2);
+    }
+    if h.content_type.is_some() {
+        populated.push(3);
+    }
+    if !h.counter_signatures.is_empty() {
+        populated.push(4);
+    }
+    if !populated.is_empty() && ctx.rng.chance(2, 3) {
+        match populated[ctx.rng.below(populated.len())] {
+            0 => {
+                h.iv[0] ^= 0x55;
+                return "body protected header (IV)";
+            }
+            1 => {
+                h.partial_iv[0] ^= 0x55;
+                return "body protected header (Partial IV)";
+            }
+            2 => {
+                h.crit.push(coset::RegisteredLabel::Text("x".into()));
+                return "body protected header (crit)";
+            }
+            3 => {
+                h.content_type = Some(match h.content_type {
+                    Some(coset::ContentType::Assigned(iana::CoapContentFormat::Cbor)) => coset::ContentType::Assigned(iana::CoapContentFormat::Json),
+                    _ => coset::ContentType::Assigned(iana::CoapContentFormat::Cbor),
+                });
+                return "body protected header (content type)";
+            }
+            _ => {
+                h.counter_signatures[0].signature.push(1);
+                return "body protected header (counter signature)";
+            }
+        }
+    }
     match ctx.rng.below(5) {
         0 => {
             p.header.key_id = other_than(ctx, &p.header.key_id.clone());
